@@ -83,6 +83,12 @@ func (i *interpreter) nondet(fr *frame, name string, lo, hi int64, k types.Basic
 
 func (i *interpreter) intrinsic(fr *frame, fn *ssa.Function, name string, args []value) (value, bool) {
 	short := fn.Name()
+	if short == "unsafeString" && len(args) == 1 {
+		// biogo's zero-copy []byte -> string cast through unsafe.Pointer
+		if cells, ok := args[0].([]value); ok {
+			return normStr(append([]value(nil), cells...)), true
+		}
+	}
 	if strings.HasPrefix(short, "verif") && fn.Signature.Recv() == nil {
 		if r, ok := i.verifIntrinsic(fr, short, args); ok {
 			return r, true
@@ -349,23 +355,26 @@ func init() {
 			fr.mutexUnlock(p)
 			return nil
 		},
-		"internal/abi.NoEscape":    func(fr *frame, args []value) value { return args[0] },
-		"internal/abi.Escape":      func(fr *frame, args []value) value { return args[0] },
-		"runtime.Gosched":          func(fr *frame, args []value) value { fr.yield(); return nil },
-		"time.Sleep":               func(fr *frame, args []value) value { fr.yield(); return nil },
-		"runtime.GOMAXPROCS":       func(fr *frame, args []value) value { return 4 },
-		"runtime.NumCPU":           func(fr *frame, args []value) value { return 4 },
-		"runtime.SetFinalizer":     func(fr *frame, args []value) value { return nil },
-		"runtime.KeepAlive":        func(fr *frame, args []value) value { return nil },
-		"runtime.GC":               func(fr *frame, args []value) value { return nil },
-		"runtime.Caller":           func(fr *frame, args []value) value { return tuple{uintptr(0), "", 0, false} },
-		"runtime.Callers":          func(fr *frame, args []value) value { return 0 },
-		"internal/race.Acquire":    func(fr *frame, args []value) value { return nil },
-		"internal/race.Release":    func(fr *frame, args []value) value { return nil },
-		"internal/race.Enable":     func(fr *frame, args []value) value { return nil },
-		"internal/race.Disable":    func(fr *frame, args []value) value { return nil },
-		"internal/race.ReadRange":  func(fr *frame, args []value) value { return nil },
-		"internal/race.WriteRange": func(fr *frame, args []value) value { return nil },
+		"strings.Clone":              func(fr *frame, args []value) value { return args[0] },
+		"strconv.cloneString":        func(fr *frame, args []value) value { return args[0] },
+		"internal/stringslite.Clone": func(fr *frame, args []value) value { return args[0] },
+		"internal/abi.NoEscape":      func(fr *frame, args []value) value { return args[0] },
+		"internal/abi.Escape":        func(fr *frame, args []value) value { return args[0] },
+		"runtime.Gosched":            func(fr *frame, args []value) value { fr.yield(); return nil },
+		"time.Sleep":                 func(fr *frame, args []value) value { fr.yield(); return nil },
+		"runtime.GOMAXPROCS":         func(fr *frame, args []value) value { return 4 },
+		"runtime.NumCPU":             func(fr *frame, args []value) value { return 4 },
+		"runtime.SetFinalizer":       func(fr *frame, args []value) value { return nil },
+		"runtime.KeepAlive":          func(fr *frame, args []value) value { return nil },
+		"runtime.GC":                 func(fr *frame, args []value) value { return nil },
+		"runtime.Caller":             func(fr *frame, args []value) value { return tuple{uintptr(0), "", 0, false} },
+		"runtime.Callers":            func(fr *frame, args []value) value { return 0 },
+		"internal/race.Acquire":      func(fr *frame, args []value) value { return nil },
+		"internal/race.Release":      func(fr *frame, args []value) value { return nil },
+		"internal/race.Enable":       func(fr *frame, args []value) value { return nil },
+		"internal/race.Disable":      func(fr *frame, args []value) value { return nil },
+		"internal/race.ReadRange":    func(fr *frame, args []value) value { return nil },
+		"internal/race.WriteRange":   func(fr *frame, args []value) value { return nil },
 
 		"math.Pow":             func(fr *frame, a []value) value { return math.Pow(a[0].(float64), a[1].(float64)) },
 		"math.Log10":           func(fr *frame, a []value) value { return math.Log10(a[0].(float64)) },
